@@ -337,7 +337,9 @@ class CalibrationDataBlock(Block):
                 )
             )
 
-        self.calibration_volume_size = calibration_volume_size
+        self.calibration_volume_size = np.asarray(
+            calibration_volume_size, dtype=VEC3F.btype.base
+        )
         "Size of the calibration volume"
 
         if calibration_volume_rotation_matrix.shape != MAT3X3F.btype.shape:
@@ -348,7 +350,9 @@ class CalibrationDataBlock(Block):
                 )
             )
 
-        self.calibration_volume_rotation_matrix = calibration_volume_rotation_matrix
+        self.calibration_volume_rotation_matrix = np.asarray(
+            calibration_volume_rotation_matrix, dtype=MAT3X3F.btype.base
+        )
         "Rotation matrix of the calibration volume"
 
         if calibration_volume_translation_vector.shape != VEC3F.btype.shape:
@@ -359,8 +363,8 @@ class CalibrationDataBlock(Block):
                 )
             )
 
-        self.calibration_volume_translation_vector = (
-            calibration_volume_translation_vector
+        self.calibration_volume_translation_vector = np.asarray(
+            calibration_volume_translation_vector, dtype=VEC3F.btype.base
         )
         "Translation vector of the calibration volume"
 
